@@ -219,8 +219,8 @@ class Ctx:
         w.advance(1)
         return box["r"], w.trace[start:]
 
-    def run_p2a(self, key, fmt=None, asm=None, cwd=None, end=True, mode="normal"):
-        outd = self.new_out()
+    def run_p2a(self, key, fmt=None, asm=None, cwd=None, end=True, mode="normal", reuse_out=None):
+        outd = reuse_out or self.new_out()
         ind = self.stage(key)[0]
         args = self.p2a_args(key, outd, fmt=fmt, asm=asm, rel_to=cwd, mode=mode)
         r, trace = self.run_inproc(self.p2a.cli, args, "pretext-to-asm", cwd=cwd, end=end)
@@ -466,12 +466,16 @@ class Ctx:
         rng = random.Random(self.case["hist_seed"])
         done = []
         steps = rng.choice([["w2", "w1"], ["w2", "af", "w1"], ["w1", "w2", "w1"], ["af", "w2", "w2", "w1"], ["w2", "w1", "af", "w1"],
-                            ["af", "w1"], ["w2", "af", "w1"]])
-        box = {"last": None}
+                            ["af", "w1"], ["w2", "af", "w1"], ["w1", "w1"], ["w2", "w1", "w1"]])
+        box = {"last": None, "first_w1": None}
+        # (an immediately repeated command always goes over its own outputs)
+        reuse_last = rng.random() < 0.5 or steps[-2:] == ["w1", "w1"]
         afmt = [rng.choice(["tpf", "agp"]) for _ in steps]
         # invocations before the last one may log elsewhere or not at all
         modes = [rng.choice(["normal", "normal", "nolog", "stdout", "debug"]) for _ in steps]
         modes[-1] = "normal"
+        if steps[-2:] == ["w1", "w1"]:
+            modes[-2] = "normal"
         for key in ("w1", "w2"):
             self.stage(key)
 
@@ -485,9 +489,15 @@ class Ctx:
                         done.append((st, oc))
                         oc = self.run_odd_asmformat(afmt[k])
                     else:
-                        oc = self.run_p2a(st, end=False, mode=modes[k])
+                        reuse = None
+                        if st == "w1" and k == len(steps) - 1 and reuse_last and box["first_w1"] is not None:
+                            # the same command again, over its own earlier outputs (default --clobber)
+                            reuse = box["first_w1"].outd
+                        oc = self.run_p2a(st, end=False, mode=modes[k], reuse_out=reuse)
                         if st == "w1" and modes[k] == "normal":
                             box["last"] = oc
+                            if box["first_w1"] is None:
+                                box["first_w1"] = oc
                     done.append((st, oc))
             finally:
                 self.nested = False
@@ -497,6 +507,8 @@ class Ctx:
         ok = self.compare("history", ref, last, f"after the in-process invocations {list(zip(steps, modes))[:-1]} vs a fresh process")
         if ok:
             for st, oc in done:
+                if oc is not last and oc.outd == last.outd:
+                    continue  # overwritten on purpose by the final run
                 now = Outcome(oc.code, self.collect(oc.outd, oc.ind))
                 if not self.compare("history", oc, now, f"files of the earlier in-process invocation {st!r} re-read at the end of the history {steps}"):
                     break
@@ -569,6 +581,16 @@ class Ctx:
         if wl["kind"] != "fasta":
             return
         d, asm, prt = self.stage("w1")
+        lines0 = wl["input"].splitlines()
+        unrepresentable = any(
+            ln.startswith(">#") or (ln.startswith(">") and (i + 1 == len(lines0) or lines0[i + 1].startswith(">")))
+            for i, ln in enumerate(lines0)
+        )
+        if unrepresentable:
+            # names beginning with '#' and records without residues cannot be
+            # written as AGP or TPF at all: "for assemblies all three can carry"
+            self.world.probe("format_dimension_skipped_unrepresentable")
+            return
         base = self.run_p2a("w1", fmt="tpf")
         if base.code != 0:
             return
